@@ -1224,6 +1224,9 @@ static vnaproperty_t **descend(parser_t *parser, vnaproperty_t **rootptr,
     vnaproperty_t **anchor = rootptr;
     vnaproperty_t *node = *anchor;
     vnaproperty_t *collection = NULL;
+    vnaproperty_t *undo_list = NULL;	/* list grown by insert or append */
+    int undo_index = 0;			/* index of the inserted element */
+    int undo_length = 0;		/* length before the insertion */
 
     /*
      * Following the expression list, walk down the tree.
@@ -1319,8 +1322,15 @@ static vnaproperty_t **descend(parser_t *parser, vnaproperty_t **rootptr,
 		    goto error;
 		}
 		collection = node;
+		if (undo_list == NULL) {
+		    undo_length = list_count(node);
+		    undo_index = exp->u.ex_index;
+		}
 		if ((anchor = list_insert(node, exp->u.ex_index)) == NULL) {
 		    goto error;
+		}
+		if (undo_list == NULL) {
+		    undo_list = node;
 		}
 		node = *anchor;
 		continue;
@@ -1331,8 +1341,15 @@ static vnaproperty_t **descend(parser_t *parser, vnaproperty_t **rootptr,
 		    goto error;
 		}
 		collection = node;
+		if (undo_list == NULL) {
+		    undo_length = list_count(node);
+		    undo_index = undo_length;
+		}
 		if ((anchor = list_append(node)) == NULL) {
 		    goto error;
+		}
+		if (undo_list == NULL) {
+		    undo_list = node;
 		}
 		node = *anchor;
 		continue;
@@ -1362,6 +1379,22 @@ static vnaproperty_t **descend(parser_t *parser, vnaproperty_t **rootptr,
     return anchor;
 
 error:
+    /*
+     * If an element was inserted or appended on the way down, take
+     * it out again so that the failed call can simply be repeated.
+     */
+    if (undo_list != NULL) {
+	int saved_errno = errno;
+
+	if (undo_index < undo_length) {
+	    (void)list_delete(undo_list, undo_index);
+	} else {
+	    while (list_count(undo_list) > undo_length) {
+		(void)list_delete(undo_list, list_count(undo_list) - 1);
+	    }
+	}
+	errno = saved_errno;
+    }
     parser_free(parser);
     return NULL;
 }
